@@ -12,10 +12,56 @@ def build():
     return core.build_harness("h_casts", ["h_casts.cpp"], core.SAN)
 
 
+FPREC = {"float": 24, "double": 53, "ldouble": 64}
+
+
+def round_sig(p, n):
+    """n >= 0 rounded to p significant bits, nearest, ties to the even significand (independent formulation: the two
+    neighbouring multiples of the unit in the last place are compared by distance)"""
+    if n < (1 << p):
+        return n
+    sh = n.bit_length() - p
+    lo = (n >> sh) << sh
+    hi = lo + (1 << sh)
+    if n - lo != hi - n:
+        return lo if n - lo < hi - n else hi
+    return lo if ((lo >> sh) & 1) == 0 else hi
+
+
+def int_to_float(f, v):
+    r = round_sig(FPREC[f], abs(v))
+    if f == "double" and abs(v) < (1 << 1000):
+        assert int(float(abs(v))) == r        # CPython's int -> float conversion is correctly rounded: ground truth for binary64
+    return -r if v < 0 else r
+
+
+def show_dy(num, k):
+    if num == 0:
+        return "0 0"
+    n, e = abs(num), -k
+    while n % 2 == 0:
+        n //= 2; e += 1
+    return f"{'-' if num < 0 else ''}{n} {e}"
+
+
 def oracle(toks, line):
     if line in ("badinput", "badop"):
         return None
     c = toks[0]
+    if c == "scastf":
+        w, fr = toks[2].split(":"); v = int(toks[3])
+        if w == "tvol" and not fits(guest(fr), v):
+            return line == "abort"
+        return line == "ok " + show_dy(int_to_float(toks[1], v), 0)     # ONE correctly rounded conversion of the underlying value
+    if c == "scastfi":
+        num, k = int(toks[3]), int(toks[4])
+        if toks[1] == "bool":
+            return line == f"ok {1 if num else 0}"
+        t = abs(num) >> k
+        return line == f"ok {-t if num < 0 else t}"        # fraction discarded, toward zero
+    if c == "scastff":
+        num, k = int(toks[3]), int(toks[4])
+        return line == "ok " + show_dy(int_to_float(toks[1], num), k)
     if c == "opq":
         ty, v = toks[1], toks[2]
         if ty == "ptr":
@@ -76,6 +122,43 @@ def run(chk):
             for w in ("tainted", "tvol"):
                 for v in (vv if thorough else rng.sample(vv, min(6, len(vv)))):
                     ops.append(f"scast {to} {w}:{fr} {v}")
+    # casts that involve a floating-point type (every integer type x {float, double, long double}, both directions, and
+    # between the floating-point types); integers beyond the significand exercise rounding: exactly one, to nearest even
+    def fvals(t):
+        lo, hi = rng_of(*TYPES[t])
+        s = {lo, hi, 0, 1, -1, (1 << 24) + 1, (1 << 24) + 3, -(1 << 24) - 1, (1 << 53) + 1, (1 << 53) + 3, (1 << 60) + (1 << 36) + 1,
+             (1 << 60) + (1 << 36), -(1 << 60) - (1 << 36) - 1, (1 << 63) + 1, (1 << 63) + (1 << 10) + 1, (1 << 64) - 1, (1 << 31) - 1, (1 << 31) - 65, 33554435}
+        for _ in range(6):
+            b = rng.randrange(1, 65)
+            s.add(rng.randrange(1 << (b - 1), 1 << b)); s.add(-rng.randrange(1 << (b - 1), 1 << b))
+            # a tie / near-tie pattern for float and for double
+            hi_bits = rng.randrange(1 << 23, 1 << 24)
+            s.add((hi_bits << 30) + (1 << 29)); s.add((hi_bits << 30) + (1 << 29) + 1); s.add((hi_bits << 30) + (1 << 29) - 1)
+            s.add((hi_bits << 35) + (1 << 34) + (1 << 5))      # above the tie for float, but a tie-to-even victim after a first rounding to double
+        return sorted(x for x in s if lo <= x <= hi)
+    for f in FPREC:
+        for t in BASE:
+            vv = fvals(t)
+            for w in ("tainted", "tvol"):
+                for v in (vv if thorough else rng.sample(vv, min(8, len(vv)))):
+                    ops.append(f"scastf {f} {w}:{t} {v}")
+            lo, hi = rng_of(*TYPES[t])
+            for w in ("tainted", "tvol"):
+                for _ in range(6 if thorough else 2):
+                    k = rng.randrange(0, 12)
+                    lim = (1 << (FPREC[f] - 1)) - 1
+                    num = rng.choice([rng.randrange(-lim, lim + 1), rng.randrange(-(1 << 12), 1 << 12), 7, -7, 1, -1, (1 << 20) + 1])
+                    tq = abs(num) >> k
+                    tq = -tq if num < 0 else tq
+                    if t == "bool" or lo <= tq <= hi:      # (an out-of-range result is undefined behaviour of the C++ cast itself)
+                        ops.append(f"scastfi {t} {w}:{f} {num} {k}")
+        for g in FPREC:
+            for w in ("tainted", "tvol"):
+                for _ in range(8 if thorough else 3):
+                    lim = (1 << (FPREC[g] - 1)) - 1
+                    num = rng.choice([rng.randrange(-lim, lim + 1), (1 << 24) + 1, (1 << 25) + 3, -(1 << 30) - (1 << 6), lim, 1, 0])
+                    if abs(num) <= lim:
+                        ops.append(f"scastff {f} {w}:{g} {num} {rng.randrange(0, 40)}")
     for w in ("tainted", "tvol"):
         for src, dst in (("int", "char"), ("char", "int"), ("int", "st"), ("st", "char"), ("int", "void"), ("pp", "char"),
                          ("baseb", "derived"), ("derived", "baseb"), ("derived", "basea"), ("basea", "baseb")):     # class pointees related by inheritance
@@ -100,7 +183,7 @@ def run(chk):
         kinds[o.split()[0]] = kinds.get(o.split()[0], 0) + 1
     chk.cov["input_distribution"] = {"ops_by_kind": kinds}
     chk.cov["distinct_nontrivial"] = len(ops)
-    chk.cov["rule"] = ("opaque round trips (byte image compared with memcmp) for 14 integer types, pointers, an array and a registered struct; sandbox_static_cast for all 14x14 integer type pairs from "
+    chk.cov["rule"] = ("opaque round trips (byte image compared with memcmp) for 14 integer types, pointers, an array and a registered struct; sandbox_static_cast for all 14x14 integer type pairs and for every pair with a floating-point type {float, double, long double} (integer->floating incl. values beyond the significand: one rounding to nearest-even; floating->integer in range; floating<->floating) from "
                        "tainted and tainted_volatile sources at boundary/random values (result type asserted at compile time); sandbox_reinterpret_cast / sandbox_const_cast between 6 pointer type pairs from "
                        "tainted and tainted_volatile sources incl. null and region ends; a callback returning tainted_opaque; opaque ARGUMENTS of invocations are exercised by the C11 check (form 'opaque')")
     chk.add_samples([{"op": o, "impl": a} for o, a in list(zip(ops, res["impl"]))[::max(1, len(ops) // 6)]])
